@@ -25,7 +25,9 @@ class RunContext:
         prof = ps.Soil.Profile
         self.dz = np.array(prof.dz, dtype=float, copy=True)
         self.dzsum = np.array(prof.dzsum, dtype=float, copy=True)
-        self.zMid = np.array(prof.zMid, dtype=float, copy=True)
+        self.zMid_model = np.array(prof.zMid, dtype=float, copy=True)
+        # compartment centres from the geometry itself (running sum of thicknesses), not from the model's own zMid column
+        self.zMid = np.cumsum(self.dz) - self.dz / 2
         self.th_s = np.array(prof.th_s, dtype=float, copy=True)
         self.th_fc = np.array(prof.th_fc, dtype=float, copy=True)
         self.th_wp = np.array(prof.th_wp, dtype=float, copy=True)
@@ -804,9 +806,13 @@ def mon_c19(ctx, rec):
         if lo.any() or hi.any():
             i = int(np.argmax(lo | hi))
             out.append(("C19:adjusted-fc-out-of-range", f"day t={rec.t}: adjusted field capacity[{i}]={adj[i]!r} not in [fc={ctx.th_fc[i]}, sat={ctx.th_s[i]}] (table at {zgw})"))
+        stale = not np.allclose(ctx.zMid, ctx.zMid_model)
         for i in range(ctx.ncomp):
             if zgw - ctx.zMid[i] >= _xmax(ctx.th_fc[i]) + 1e-9 and adj[i] != ctx.th_fc[i]:
-                out.append(("C19:adjusted-fc-far-table", f"day t={rec.t}: compartment {i} (mid {ctx.zMid[i]}) is {zgw - ctx.zMid[i]:.3f} m above the table but its adjusted field capacity {adj[i]!r} != fc {ctx.th_fc[i]!r}"))
+                tag = ""
+                if stale and not (zgw - ctx.zMid_model[i] >= _xmax(ctx.th_fc[i]) + 1e-9):
+                    tag = ":stale-mid-depths-after-deepening"
+                out.append(("C19:adjusted-fc-far-table" + tag, f"day t={rec.t}: compartment {i} (centre {ctx.zMid[i]:.3f} m; the model's own mid-depth column says {ctx.zMid_model[i]:.3f}) is {zgw - ctx.zMid[i]:.3f} m above the table but its adjusted field capacity {adj[i]!r} != fc {ctx.th_fc[i]!r}"))
                 break
     below = ctx.zMid >= zgw
     if below.any():
@@ -814,7 +820,11 @@ def mon_c19(ctx, rec):
         bad = below & (rec.th1 != ctx.th_s)
         if bad.any():
             i = int(np.argmax(bad))
-            out.append(("C19:below-table-not-saturated", f"day t={rec.t}: compartment {i} (mid-depth {ctx.zMid[i]} m) lies below the table at {zgw} m but ends the day at th={rec.th1[i]!r}, saturation {ctx.th_s[i]!r}"))
+            tag = ""
+            if not np.allclose(ctx.zMid, ctx.zMid_model) and not ((ctx.zMid_model >= zgw) & (rec.th1 != ctx.th_s)).any():
+                # holds with the model's own (stale) mid-depth column, fails with the centres the geometry implies
+                tag = ":stale-mid-depths-after-deepening"
+            out.append(("C19:below-table-not-saturated" + tag, f"day t={rec.t}: compartment {i} (centre {ctx.zMid[i]:.3f} m; the model's own mid-depth column says {ctx.zMid_model[i]:.3f}) lies below the table at {zgw} m but ends the day at th={rec.th1[i]!r}, saturation {ctx.th_s[i]!r}"))
     # capillary rise: compartments it raised must not exceed the adjusted field capacity (+ the 1e-4 rounding quantum)
     led = rec.ledger
     if led and cg is not None:
